@@ -174,9 +174,15 @@ def check_m2(ctx, prog, res_fork, F_fork):
 def check_m3(ctx, prog):
     """disposition reset covers 1..31 on every child path that returns"""
     F = prog.fn("process_fork")
-    sig_calls = [n for n in F.calls("sigaction")]
+    def is_null_arg(a):
+        a = strip(a)
+        while a["k"] in ("ParenExpr", "CStyleCastExpr", "ImplicitCastExpr") and a.get("c"):
+            a = strip(a["c"][0])
+        return a["k"] in ("GNUNullExpr", "CXXNullPtrLiteralExpr") or (a["k"] == "IntegerLiteral" and a.get("val") == 0)
+    # calls that install an action (second argument not a null pointer); calls that only query are left to the interpreter
+    sig_calls = [n for n in F.calls("sigaction") if not is_null_arg(n["c"][2])]
     if len(sig_calls) != 1:
-        raise AnalysisBroken("C12.M3: expected one sigaction call in process_fork, found %d" % len(sig_calls))
+        raise AnalysisBroken("C12.M3: expected one sigaction call that installs an action in process_fork, found %d" % len(sig_calls))
     call = sig_calls[0]
     arg0 = strip(call["c"][1])
     if arg0["k"] != "DeclRefExpr":
@@ -197,8 +203,46 @@ def check_m3(ctx, prog):
     ok_writes = len(writes) == 1 and loops and writes[0]["id"] == loops[0].get("inc") and writes[0].get("op") == "++"
     ctx.ob("C12.M3w", "process_fork: " + var, "the signal loop variable changes only by the loop's own ++", ok_writes,
            {"writes": [expr_str(w) for w in writes]})
+    # C12.M3q: inside the loop no path reaches the next iteration without passing the installing call
+    cfg = F.cfg
+    def block_of(nid):
+        bs = [B for B in cfg.blocks.values() if nid in [e if isinstance(e, int) else e.get("id") for e in B.elems]]
+        return bs[0] if bs else None
+    if loops:
+        loop = loops[0]
+        Bs = block_of(call["id"])
+        Binc = block_of(loop.get("inc")) if loop.get("inc") is not None else None
+        heads = [B for B in cfg.blocks.values() if B.term == loop["id"]]
+        if Bs is None or Binc is None or len(heads) != 1:
+            raise AnalysisBroken("C12.M3q: blocks of the reset loop not found in the CFG of process_fork")
+        entry = heads[0].succs[0][0]
+        seen_b, todo, skipping = set(), [entry], False
+        while todo:
+            b = todo.pop()
+            if b is None or b in seen_b or b == Bs.id:
+                continue
+            seen_b.add(b)
+            if b == Binc.id:
+                skipping = True
+                break
+            todo.extend(x for x, _ in cfg.blocks[b].succs)
+        ctx.ob("C12.M3q", "process_fork: loop over %s" % var, "no path through the loop body reaches the next iteration without passing the "
+               "sigaction call that installs SIG_DFL (a signal skipped because it is ignored or at its default in the parent keeps "
+               "that disposition across exec)", not skipping, {"blocks_searched": len(seen_b)}, nontrivial=True)
     K = set(range(-3, 40)) | {prog.const("REPROC_EINVAL")}
-    I = new_interp(prog, K=None, keep_live=[var])
+    from ..models import m_sigaction
+
+    def m_sigaction_track(I_, fn, n, args, st):
+        outs = m_sigaction(I_, fn, n, args, st)
+        if not (args[1] - {"NULL"}):
+            return outs
+        res_ = []
+        for s_, rv_ in outs:
+            s2 = s_.copy()
+            s2.mon["last_reset"] = args[0]
+            res_.append((s2, rv_))
+        return res_
+    I = new_interp(prog, K=None, keep_live=[var], extra_models={"sigaction": m_sigaction_track})
     I.K = sorted(set(I.K) | K)
     I.Kset = set(I.K)
     I.TOP_INT = frozenset(I.K) | {"NEG", "POS"}
@@ -209,6 +253,8 @@ def check_m3(ctx, prog):
     hdetail = []
     for kind, fn, n, info, st, stack in (x[:6] for x in res.events):
         if kind == "sigaction":
+            if not (info[1] - {"NULL"}):
+                continue   # a query changes nothing
             for a in info[0]:
                 covered.add(a)
             # the action installed is SIG_DFL
